@@ -496,7 +496,9 @@ class ObjectType(Type):
         self.__initialize__()
 
         if value is None:
-            return None
+            # None is handled by the argument (optional parameters); it is not
+            # a valid element of a list or of a dictionary of configurations
+            raise ValueError(f"None is not a configuration of type {self.basetype}")
 
         if not isinstance(value, Config):
             raise ValueError(f"{value} is not an experimaestro type or task")
